@@ -190,8 +190,38 @@ func (r *pathRun) record(name, kind string, terms []*Term) {
 	r.nondets = append(r.nondets, NondetRec{Name: name, Kind: kind, Terms: terms, Len: len(terms)})
 }
 
+// nextReplay pops the next recorded input when the run replays a concrete vector.
+func (r *pathRun) nextReplay(name string) (ReplayVal, bool) {
+	in := r.eng.cfg.ReplayInputs
+	if in == nil {
+		return ReplayVal{}, false
+	}
+	if r.replayPos >= len(in) {
+		return ReplayVal{Name: name}, true // unconstrained by the solver: zero value
+	}
+	v := in[r.replayPos]
+	r.replayPos++
+	if v.Name != name {
+		r.abort("unsupported", fmt.Sprintf("concrete replay: input %d is %q, harness asked for %q", r.replayPos-1, v.Name, name))
+	}
+	return v, true
+}
+
+func hexBytes(h string) []value {
+	out := make([]value, 0, len(h)/2)
+	for i := 0; i+1 < len(h); i += 2 {
+		var b uint8
+		fmt.Sscanf(h[i:i+2], "%02x", &b)
+		out = append(out, b)
+	}
+	return out
+}
+
 func vpNondetBool(fr *frame, args []value) (value, bool) {
 	r := fr.i.run
+	if v, ok := r.nextReplay(argName(args[0])); ok {
+		return v.Int != 0, true
+	}
 	t := r.freshVar(argName(args[0]), 0)
 	r.record(argName(args[0]), "bool", []*Term{t})
 	return sym{t, types.Bool}, true
@@ -199,6 +229,9 @@ func vpNondetBool(fr *frame, args []value) (value, bool) {
 
 func vpNondetByte(fr *frame, args []value) (value, bool) {
 	r := fr.i.run
+	if v, ok := r.nextReplay(argName(args[0])); ok {
+		return uint8(v.Int), true
+	}
 	t := r.freshVar(argName(args[0]), 8)
 	r.record(argName(args[0]), "byte", []*Term{t})
 	return sym{t, types.Uint8}, true
@@ -206,6 +239,9 @@ func vpNondetByte(fr *frame, args []value) (value, bool) {
 
 func vpNondetInt(fr *frame, args []value) (value, bool) {
 	r := fr.i.run
+	if v, ok := r.nextReplay(argName(args[0])); ok {
+		return int(v.Int), true
+	}
 	t := r.freshVar(argName(args[0]), 64)
 	r.record(argName(args[0]), "int", []*Term{t})
 	return sym{t, types.Int}, true
@@ -216,6 +252,12 @@ func vpNondetInt(fr *frame, args []value) (value, bool) {
 func (r *pathRun) rangeVar(name string, lo, hi int64) value {
 	if lo > hi {
 		r.abort("assume-false", "empty range")
+	}
+	if v, ok := r.nextReplay(name); ok {
+		if v.Int < lo || v.Int > hi {
+			r.abort("assume-false", "replayed value out of range")
+		}
+		return int(v.Int)
 	}
 	if lo == hi {
 		t := r.ctx.Const(64, uint64(lo))
@@ -280,6 +322,9 @@ func (r *pathRun) nondetBytes(name, kind string, n int) []value {
 func vpNondetString(fr *frame, args []value) (value, bool) {
 	r := fr.i.run
 	name := argName(args[0])
+	if v, ok := r.nextReplay(name); ok {
+		return mkString(hexBytes(v.Hex)), true
+	}
 	n := r.nondetLen(name, r.concInt(args[1], "maxlen"))
 	return mkString(r.nondetBytes(name, "string", n)), true
 }
@@ -287,6 +332,13 @@ func vpNondetString(fr *frame, args []value) (value, bool) {
 func vpNondetStringN(fr *frame, args []value) (value, bool) {
 	r := fr.i.run
 	name := argName(args[0])
+	if v, ok := r.nextReplay(name); ok {
+		b := hexBytes(v.Hex)
+		for int64(len(b)) < r.concInt(args[1], "len") {
+			b = append(b, uint8(0))
+		}
+		return mkString(b), true
+	}
 	n := int(r.concInt(args[1], "len"))
 	return mkString(r.nondetBytes(name, "string", n)), true
 }
@@ -294,6 +346,9 @@ func vpNondetStringN(fr *frame, args []value) (value, bool) {
 func vpNondetStringFrom(fr *frame, args []value) (value, bool) {
 	r := fr.i.run
 	name := argName(args[0])
+	if v, ok := r.nextReplay(name); ok {
+		return mkString(hexBytes(v.Hex)), true
+	}
 	n := r.nondetLen(name, r.concInt(args[1], "maxlen"))
 	alpha := args[2].(string)
 	bs := r.nondetBytes(name, "string", n)
@@ -311,6 +366,9 @@ func vpNondetStringFrom(fr *frame, args []value) (value, bool) {
 func vpNondetBytes(fr *frame, args []value) (value, bool) {
 	r := fr.i.run
 	name := argName(args[0])
+	if v, ok := r.nextReplay(name); ok {
+		return hexBytes(v.Hex), true
+	}
 	n := r.nondetLen(name, r.concInt(args[1], "maxlen"))
 	return r.nondetBytes(name, "bytes", n), true
 }
